@@ -205,7 +205,8 @@ func runDiskCase(t *testing.T, run *core.Run, name string, idx int) {
 	}
 	killAt := 1 + rng.Intn(span)
 	cmd := exec.Command(os.Args[0], "-test.run", "^TestDiskChild$", "-test.count=1", "-test.timeout", "30m")
-	cmd.Env = append(os.Environ(), "C09_DISK_DIR="+dir, fmt.Sprintf("C09_KILL_AT=%d", killAt), fmt.Sprintf("C09_DISK_IDX=%d", idx),
+	_ = os.MkdirAll(filepath.Join(dir, "tmp"), 0o755) // the killed child cannot clean up its nodes' data dirs: keep them under dir
+	cmd.Env = append(os.Environ(), "TMPDIR="+filepath.Join(dir, "tmp"), "C09_DISK_DIR="+dir, fmt.Sprintf("C09_KILL_AT=%d", killAt), fmt.Sprintf("C09_DISK_IDX=%d", idx),
 		"C09_DISK_NAME="+name, fmt.Sprintf("C09_DISK_BLOCKS=%d", blocks))
 	out, runErr := cmd.CombinedOutput()
 	killed := false
